@@ -34,6 +34,7 @@ type fctx struct {
 	// detached: the body runs in another goroutine or later; what it acquires
 	// is not acquired by the enclosing function.
 	detached bool
+	inPrefix bool
 }
 
 func (a *analysis) newCtx(fi *funcInfo, name string, pkg *packages.Package) *fctx {
@@ -866,7 +867,10 @@ func (a *analysis) rootOf(pr *pathRef) (root, base, path string) {
 	return "", baseKey(pr.obj, nil), strings.Join(names, ".")
 }
 
-// classify finds the guard or exemption of a path by longest prefix.
+// classify finds the guard or exemption of a path by longest prefix.  A key
+// "p.*" classifies everything strictly below p (the contents reached through
+// the pointer field p), a key "p" the field itself and, if there is no "p.*"
+// key, also what is below it.
 func (a *analysis) classify(root, path string) (prefix, guard, exempt string, ok bool) {
 	rc := a.rootCfg[root]
 	if rc == nil {
@@ -875,6 +879,14 @@ func (a *analysis) classify(root, path string) (prefix, guard, exempt string, ok
 	segs := strings.Split(path, ".")
 	for n := len(segs); n > 0; n-- {
 		p := strings.Join(segs[:n], ".")
+		if n < len(segs) {
+			if g, found := rc.Guards[p+".*"]; found {
+				return p + ".*", g, "", true
+			}
+			if r, found := rc.Exempt[p+".*"]; found {
+				return p + ".*", "", r, true
+			}
+		}
 		if g, found := rc.Guards[p]; found {
 			return p, g, "", true
 		}
@@ -886,7 +898,14 @@ func (a *analysis) classify(root, path string) (prefix, guard, exempt string, ok
 	return "", "", "", false
 }
 
+// record notes an access to the path.  An access to a whole struct value (a
+// struct-typed path, or a dereferenced pointer to a struct) is also an access
+// to every separately classified field below it.
 func (c *fctx) record(e ast.Expr, pr *pathRef, write bool) {
+	c.recordW(e, pr, write, false)
+}
+
+func (c *fctx) recordW(e ast.Expr, pr *pathRef, write, derefd bool) {
 	if pr == nil || len(pr.segs) == 0 || c.a.collecting {
 		return
 	}
@@ -902,6 +921,18 @@ func (c *fctx) record(e ast.Expr, pr *pathRef, write bool) {
 	// the lock fields themselves
 	if ok, _ := isMutexType(pr.segs[len(pr.segs)-1].typ); ok {
 		return
+	}
+	// reaching a field through pointer-typed fields loads those pointers
+	if !c.inPrefix {
+		k0 := len(pr.segs) - len(strings.Split(path, "."))
+		for k := k0; k < len(pr.segs)-1; k++ {
+			if _, isPtr := types.Unalias(pr.segs[k].typ).(*types.Pointer); isPtr {
+				sub := &pathRef{obj: pr.obj, segs: pr.segs[:k+1]}
+				c.inPrefix = true
+				c.recordW(e, sub, false, false)
+				c.inPrefix = false
+			}
+		}
 	}
 	prefix, guard, exempt, ok := c.a.classify(root, path)
 	if !ok {
@@ -922,6 +953,33 @@ func (c *fctx) record(e ast.Expr, pr *pathRef, write bool) {
 		}
 	}
 	c.a.accs = append(c.a.accs, acc)
+	// whole-value access
+	lastT := types.Unalias(pr.segs[len(pr.segs)-1].typ)
+	_, isPtr := lastT.(*types.Pointer)
+	_, isStruct := deref(lastT).Underlying().(*types.Struct)
+	if !isStruct || (isPtr && !derefd) {
+		return
+	}
+	rc := c.a.rootCfg[root]
+	var subs []string
+	for p := range rc.Guards {
+		if strings.HasPrefix(p, path+".") && p != prefix {
+			subs = append(subs, p)
+		}
+	}
+	for p, why := range rc.Exempt {
+		if strings.HasPrefix(p, path+".") && write && strings.HasPrefix(why, "immutable") {
+			subs = append(subs, p)
+		}
+	}
+	sort.Strings(subs)
+	for _, p := range subs {
+		sub := *acc
+		sub.path = p
+		sub.field = root + ":" + p
+		sub.guard, sub.exempt = rc.Guards[p], rc.Exempt[p]
+		c.a.accs = append(c.a.accs, &sub)
+	}
 }
 
 // ---------------------------------------------------------------- expressions
@@ -943,7 +1001,8 @@ func (c *fctx) lhs(e ast.Expr) {
 	for _, x := range pr.side {
 		c.expr(x)
 	}
-	c.record(e, pr, true)
+	_, isStar := e.(*ast.StarExpr)
+	c.recordW(e, pr, true, isStar)
 }
 
 // exprFun walks the callee expression of a call.
@@ -1085,6 +1144,14 @@ func (c *fctx) expr(e ast.Expr) {
 		}
 		c.record(e, pr, false)
 	case *ast.StarExpr:
+		if pr := c.resolve(e.X); pr != nil && len(pr.segs) > 0 {
+			for _, x := range pr.side {
+				c.expr(x)
+			}
+			c.recordW(e, pr, false, true)
+
+			return
+		}
 		c.expr(e.X)
 	case *ast.UnaryExpr:
 		if e.Op == token.AND {
@@ -1092,8 +1159,9 @@ func (c *fctx) expr(e ast.Expr) {
 				for _, x := range pr.side {
 					c.expr(x)
 				}
-				// address taken: the pointer may be used to read
-				c.record(e, pr, false)
+				// address taken: no memory of the field is touched here; what
+				// is done through the pointer is outside the analysis (counted).
+				c.a.addrTaken[c.a.pos(e.Pos())] = true
 
 				return
 			}
@@ -1171,6 +1239,7 @@ func (c *fctx) call(call *ast.CallExpr) {
 			if syncCB {
 				lits = append(lits, fl)
 			} else {
+				c.a.noteLitCallee(c, call)
 				c.runLit(fl, nil, nil, false)
 			}
 
@@ -1256,7 +1325,7 @@ func (c *fctx) isSyncCallback(call *ast.CallExpr) bool {
 			return true
 		}
 	}
-	name := funcName(f)
+	name := funcName(f.Origin())
 	for _, s := range c.a.cfg.SyncCallbacks {
 		if s == name {
 			return true
@@ -1391,6 +1460,13 @@ func (c *fctx) callTargets(call *ast.CallExpr, isGo bool, _ []*ast.FuncLit, top 
 		if c.fi != nil && c.a.cfg.InitFuncs[c.fi.name] != "" {
 			site.init = true
 		}
+		// a method called on an object this function has just created: the
+		// object is not shared yet, the call constrains nothing
+		if sel, ok := ast.Unparen(call.Fun).(*ast.SelectorExpr); ok {
+			if pr := c.resolve(sel.X); pr != nil && pr.obj != nil && len(pr.segs) == 0 && c.fresh[pr.obj] {
+				site.init = true
+			}
+		}
 		if !isGo && !top {
 			site.held = c.mapToCallee(call, t)
 		}
@@ -1414,7 +1490,11 @@ func (c *fctx) fieldKey(s *types.Selection, fld *types.Var) string {
 }
 
 func (c *fctx) dynamicCall(call *ast.CallExpr, what string) {
-	if len(c.may) == 0 || c.a.collecting {
+	if c.a.collecting {
+		return
+	}
+	c.a.dynAll[what]++
+	if len(c.may) == 0 {
 		return
 	}
 	var held []string
@@ -1480,4 +1560,19 @@ func (c *fctx) mapToCallee(call *ast.CallExpr, callee *types.Func) (res []entryL
 	}
 
 	return res
+}
+
+func (a *analysis) noteLitCallee(c *fctx, call *ast.CallExpr) {
+	name := "?"
+	if f := c.staticCallee(call); f != nil {
+		name = funcName(f.Origin())
+	} else if sel, ok := ast.Unparen(call.Fun).(*ast.SelectorExpr); ok {
+		name = "dynamic ." + sel.Sel.Name
+	}
+	if a.litCallees == nil {
+		a.litCallees = map[string]int{}
+	}
+	if !a.collecting {
+		a.litCallees[name]++
+	}
 }
